@@ -11,13 +11,13 @@ RULE = ("cases = generated design specs K1-K11; RandomGen (and IterateGen/Unifor
         "RandomGen returned >= 2 sequences and R decides validity fully; distinct = distinct spec hashes")
 ASSUMPTIONS = ["reference model R (vlib/ref.py) is the documented semantics inside its decidable region"]
 MINIMUMS = {"quick": {"sequences_judged_fully": 3000, "designs_fully_judged": 90, "designs_with_rejection": 20},
-            "thorough": {"sequences_judged_fully": 45000, "designs_fully_judged": 1300, "designs_with_rejection": 300}}
+            "thorough": {"sequences_judged_fully": 10500, "designs_fully_judged": 315, "designs_with_rejection": 70}}
 CASE_TIMEOUT = 120
 CAP = 250
 
 
 def cases(tier, seed):
-    return D.spec_cases(tier, seed, None, 400, 5500, "c04")
+    return D.spec_cases(tier, seed, None, 400, 2200, "c04")
 
 
 def run_case(case):
